@@ -218,6 +218,9 @@ func (env *Env) tr(x Expr) TV {
 			if !ok {
 				specFail("deref of non-pointer %s", v.Ty)
 			}
+			if a, isArr := p.Elem().Underlying().(*types.Array); isArr {
+				return TV{app("select", env.heap(e.elemHeap(a.Elem())), v.T), p.Elem()}
+			}
 			return TV{app("select", env.heap(e.cellHeap(p.Elem())), v.T), p.Elem()}
 		}
 	case *EBin:
@@ -830,6 +833,10 @@ func (env *Env) trCall(x *ECall) TV {
 			id = app("s_arr", v.T)
 		}
 		return TV{and(app(">=", id, env.alloc0), app("<", id, env.heap("alloc"))), tyBool}
+	case "freshregion": // the object and all scratch memory it owns were allocated by this call
+		argN(1)
+		v := env.tr(x.Args[0])
+		return TV{app(">=", e.minid(v), env.alloc0), tyBool}
 	case "allocated": // everything the value refers to directly existed at function entry
 		argN(1)
 		v := env.tr(x.Args[0])
@@ -860,6 +867,18 @@ func (env *Env) trCall(x *ECall) TV {
 		argN(1)
 		e.decl("fn:i2f", "(declare-fun i2f (Int) F64)")
 		return TV{app("i2f", env.tr(x.Args[0]).T), tyF64}
+	case "substr":
+		// substr(b, lo, hi): the string made of bytes b[lo:hi] (a function of the backing array's content)
+		argN(3)
+		b := env.tr(x.Args[0])
+		sl, ok := b.Ty.Underlying().(*types.Slice)
+		if !ok {
+			specFail("substr of non-slice")
+		}
+		lo, hi := env.tr(x.Args[1]).T, env.tr(x.Args[2]).T
+		e.declBytesStr()
+		h := env.heap(e.elemHeap(sl.Elem()))
+		return TV{app("bytes_str", app("select", h, app("s_arr", b.T)), app("idx", b.T, lo), app("-", hi, lo)), tyString}
 	case "trunc":
 		argN(1)
 		e.decl("fn:f2i", "(declare-fun f2i (F64) Int)")
@@ -924,8 +943,15 @@ func (e *Enc) applyFn(sig *types.Signature, fn Term, args []Term) Term {
 	var ps []string
 	name := "apply"
 	for i := 0; i < sig.Params().Len(); i++ {
-		ps = append(ps, e.sortOf(sig.Params().At(i).Type()))
-		name += "_" + e.mangle(sig.Params().At(i).Type())
+		pt := sig.Params().At(i).Type()
+		if el, ok := ptrToBasic(pt); ok {
+			// a callback sees a *T argument only through (is it nil, the value it points to)
+			ps = append(ps, "Bool", e.sortOf(el))
+			name += "_p" + e.mangle(el)
+			continue
+		}
+		ps = append(ps, e.sortOf(pt))
+		name += "_" + e.mangle(pt)
 	}
 	if sig.Params().Len() == 0 {
 		ps = append(ps, "Int")
@@ -940,8 +966,19 @@ func (e *Enc) applyFn(sig *types.Signature, fn Term, args []Term) Term {
 		rs = e.sortOf(sig.Results().At(0).Type())
 	}
 	e.decl("fn:"+name, fmt.Sprintf("(declare-fun %s (Int %s) %s)", name, strings.Join(ps, " "), rs))
-	e.note("calls through function values are uninterpreted functions of (function, arguments)")
+	e.note("calls through function values are uninterpreted functions of (function, arguments); pointer arguments count as (nil?, pointee value)")
 	return app(name, append([]Term{fn}, args...)...)
+}
+
+func ptrToBasic(t types.Type) (types.Type, bool) {
+	p, ok := t.Underlying().(*types.Pointer)
+	if !ok {
+		return nil, false
+	}
+	if _, ok := p.Elem().Underlying().(*types.Basic); ok {
+		return p.Elem(), true
+	}
+	return nil, false
 }
 
 func exprString(x Expr) string {
@@ -999,4 +1036,26 @@ func exprString(x Expr) string {
 		return exprString(x.X) + ".(" + x.Type.String() + ")"
 	}
 	return "?"
+}
+
+// bytes_str(array, start, n): the string whose bytes are array[start .. start+n)
+func (e *Enc) declBytesStr() {
+	if e.declared["fn:bytes_str"] {
+		return
+	}
+	e.decl("fn:bytes_str", "(declare-fun bytes_str ((Array Int Int) Int Int) Str)")
+	e.axioms = append(e.axioms, "(assert (forall ((a (Array Int Int)) (s Int) (n Int)) (! (=> (>= n 0) (= (str_len (bytes_str a s n)) n)) :pattern ((bytes_str a s n)))))")
+	e.note("[]byte→string views are an uninterpreted function of (backing array content, start, length)")
+}
+
+// minid(v): lower bound of the ids of the memory owned by an object (uninterpreted);
+// used for scratch state that an object may overwrite on every use (matcher buffers).
+func (e *Enc) minid(v TV) Term {
+	switch v.Ty.Underlying().(type) {
+	case *types.Interface:
+		e.decl("fn:iface_minid", "(declare-fun iface_minid (Iface) Int)")
+		return app("iface_minid", v.T)
+	}
+	e.decl("fn:obj_minid", "(declare-fun obj_minid (Int) Int)")
+	return app("obj_minid", v.T)
 }
